@@ -28,7 +28,9 @@ VEC_CLEAR = "alloc::vec::Vec::<T, A>::clear"
 VEC_POP = "alloc::vec::Vec::<T, A>::pop"
 VEC_REVERSE = "core::slice::<impl [T]>::reverse"
 SPLIT_OFF = "alloc::vec::Vec::<T, A>::split_off"
+DRAIN = "alloc::vec::Vec::<T, A>::drain"
 TRY_INTO = "core::convert::TryInto::try_into"
+TRY_FROM = "core::convert::TryFrom::try_from"
 INTO_ITER = "core::iter::traits::collect::IntoIterator::into_iter"
 ITER_NEXT = "core::iter::traits::iterator::Iterator::next"
 RESULT_KEEP_VARIANT = ("core::result::Result::<T, E>::map_err", "core::result::Result::<T, E>::map")
@@ -379,6 +381,11 @@ class VecLen:
                     st.sym[l] = ("cmp", op, a[1], b[1] - a[2])
                 elif a and b and a[0] == "const" and b[0] == "len":
                     st.sym[l] = ("cmp", flip(op), b[1], a[1] - b[2])
+            elif op in ("AddWithOverflow", "Add") and a and b and a[0] == "const" and b[0] == "const" \
+                    and isinstance(a[1], int) and isinstance(b[1], int) and 0 <= a[1] + b[1] < 2 ** 63:
+                # `idx + 1` with idx a constant that reached here through an inlined helper's parameter
+                res = ("const", a[1] + b[1])
+                st.sym[l] = ("pair", res, ("const", False)) if op == "AddWithOverflow" else res
             elif op in ("SubWithOverflow", "Sub") and a and b and a[0] == "len" and b[0] == "const":
                 res = ("len", a[1], a[2] - b[1])
                 lo = self._iv(st, a[1])[0] + a[2]
@@ -411,6 +418,9 @@ class VecLen:
         elif k == "aggr" and rv["kind"] == "adt" and rv["adt"] == "core::ops::range::Range":
             ops = [self._sym_of_operand(st, o) for o in rv["ops"]]
             st.sym[l] = ("range", ops[0], ops[1])
+        elif k == "aggr" and rv["kind"] == "adt" and rv["adt"] == "core::ops::range::RangeFrom":
+            ops = [self._sym_of_operand(st, o) for o in rv["ops"]]
+            st.sym[l] = ("rangefrom", ops[0])
 
     def _call(self, st, bb, t):
         name = callee_path(t)
@@ -439,7 +449,7 @@ class VecLen:
         if dl is not None and (name == FROM_RESIDUAL or self._always_err(name)):
             st.sym[dl] = ("variant", "Err")
             return
-        if name == TRY_INTO and dl is not None and args and args[0]["k"] in ("copy", "move") and not args[0]["place"]["p"]:
+        if name in (TRY_INTO, TRY_FROM) and dl is not None and args and args[0]["k"] in ("copy", "move") and not args[0]["place"]["p"]:
             # Vec<T> -> [T; N]: Ok exactly when len == N, elements in order
             m = re.search(r";\s*(\d+)\]", ((t.get("callee") or {}).get("resolved") or {}).get("full") or (t.get("callee") or {}).get("full") or "")
             src = "_%d" % args[0]["place"]["l"]
@@ -517,9 +527,12 @@ class VecLen:
             # &Vec<T> -> &[T]: same length facts
             st.sym[dl] = ("ref", key0)
             return
-        if name == SPLIT_OFF and key0 and len(args) == 2:
+        if name in (SPLIT_OFF, DRAIN) and key0 and len(args) == 2:
+            # `v.split_off(k)` / `v.drain(k..)`: v keeps elements 0..k, the result holds (yields) elements k..
             iv = self._iv(st, key0)
             at = self._sym_of_operand(st, args[1])
+            if name == DRAIN:
+                at = at[1] if (at and at[0] == "rangefrom") else None
             self.site_state[bb] = (key0, iv)
             if at and at[0] == "const":
                 k = at[1]
